@@ -56,6 +56,9 @@ where
     #[error("attempted to add group {0} with manage access")]
     ManagerGroupsNotAllowed(ID),
 
+    #[error("group {0} does not exist at the dependencies of operation {1}")]
+    UnknownGroup(ID, OP),
+
     #[error("resolver error: {0}")]
     Resolver(RS::Error),
 }
@@ -662,6 +665,20 @@ where
             return Err(GroupCrdtError::GroupCycle(
                 parent_group,
                 sub_group.id(),
+                operation.id(),
+            ));
+        }
+
+        // Every action except of "create" needs the group to exist at the claimed dependencies. The
+        // group id is chosen by the (remote) author of the operation, we can't assume it exists.
+        if !operation.action().is_create()
+            && !temp_y
+                .inner
+                .current_state()
+                .contains_key(&operation.group_id())
+        {
+            return Err(GroupCrdtError::UnknownGroup(
+                operation.group_id(),
                 operation.id(),
             ));
         }
